@@ -199,6 +199,24 @@ pub fn mutations(s: &Seed, seed: u64, thorough: bool) -> Vec<(String, Vec<u8>)> 
     // pairs over the first 8 dwords (two hostile header fields at once)
     let hv = [0u32, 1, 0xFFFF_FFFF, n as u32, 0x200];
     for i in 0..8usize.min(n / 4) { for j in (i + 1)..8usize.min(n / 4) { for &x in &hv { for &y in &hv { if !thorough && !matches!(s.fmt, "dbc" | "attr" | "patch" | "skin" | "anim") && (i + j + x as usize + y as usize + seed as usize) % 4 != 0 { continue; } let mut m = b.clone(); m[i * 4..i * 4 + 4].copy_from_slice(&x.to_le_bytes()); m[j * 4..j * 4 + 4].copy_from_slice(&y.to_le_bytes()); out.push((format!("dwords@{},{}={x:#x},{y:#x}", i * 4, j * 4), m)); } } } }
+    // fields that belong together, both hostile at once: the (offset, size) entries of a BLP mipmap locator (offsets at 28 / 20,
+    // the sizes 64 bytes behind them) and the adjacent (count, offset) dword pairs of model / skin / animation headers
+    {
+        let nn = n as u32;
+        let combos: [(u32, u32); 7] = [(nn.wrapping_add(1), 0), (nn, 0), (0xFFFF_FFFF, 0), (0xFFFF_FFF0, 0x20), (nn.wrapping_sub(1), 2), (0, nn.wrapping_add(1)), (nn.wrapping_add(64), 1)];
+        if s.fmt == "blp" && n >= 160 {
+            let base = if &b[..4] == b"BLP2" { 20 } else { 28 };
+            for lvl in 0..16usize { let (o, z) = (base + 4 * lvl, base + 64 + 4 * lvl); if z + 4 > n { break; }
+                let used = u32::from_le_bytes([b[z], b[z + 1], b[z + 2], b[z + 3]]) != 0 || lvl == 0;
+                if !used && lvl > 1 { continue; }
+                for &(ov, sv) in &combos { let mut m = b.clone(); m[o..o + 4].copy_from_slice(&ov.to_le_bytes()); m[z..z + 4].copy_from_slice(&sv.to_le_bytes()); out.push((format!("locator[{lvl}]=({ov:#x},{sv:#x})"), m)); } }
+        }
+        if matches!(s.fmt, "m2" | "skin" | "anim" | "m2c") {
+            let lim = n.min(400) / 4;
+            for i in 0..lim.saturating_sub(1) { if !thorough && (i as u64 + seed) % 3 != 0 { continue; } let o = i * 4; if o + 8 > n { break; }
+                for &(ov, sv) in &combos[..5] { let mut m = b.clone(); m[o..o + 4].copy_from_slice(&sv.max(1).to_le_bytes()); m[o + 4..o + 8].copy_from_slice(&ov.to_le_bytes()); out.push((format!("pair@{o}=(count {:#x}, offset {ov:#x})", sv.max(1)), m)); } }
+        }
+    }
     // chunk reordering / duplication / deletion
     if matches!(s.fmt, "adt" | "wmo" | "wdt" | "wdl" | "m2c") { let mut cs: Vec<(usize, usize)> = vec![]; let mut p = 0usize; while p + 8 <= n { let sz = u32::from_le_bytes([b[p + 4], b[p + 5], b[p + 6], b[p + 7]]) as usize; if p + 8 + sz > n { break; } cs.push((p, p + 8 + sz)); p += 8 + sz; }
         let mut picks: Vec<usize> = (0..cs.len().min(14)).collect(); for k in cs.len().saturating_sub(3)..cs.len() { if !picks.contains(&k) { picks.push(k); } }
